@@ -1,6 +1,7 @@
 package yaml
 
 import (
+	"errors"
 	"fmt"
 	"io"
 	"os"
@@ -59,6 +60,10 @@ func (loader *CompilerLoader) Load(reader io.Reader) (compiler.Passes, error) {
 		return nil, err
 	}
 
+	if err := ExpectSingleDocument(decoder); err != nil {
+		return nil, err
+	}
+
 	passes := make(compiler.Passes, 0, len(compilerConfig.Passes))
 
 	// convert compiler passes
@@ -79,4 +84,29 @@ func (loader *CompilerLoader) Load(reader io.Reader) (compiler.Passes, error) {
 	}
 
 	return passes, nil
+}
+
+// ExpectSingleDocument tells whether the stream the decoder reads from holds
+// anything after the document that was just decoded. A configuration file
+// holds ONE YAML document: whatever follows a `---` separator would otherwise
+// be silently ignored, unknown keys and rules included. Empty documents (a
+// trailing `---`) are tolerated.
+func ExpectSingleDocument(decoder *yaml.Decoder) error {
+	for {
+		extra := yaml.Node{}
+
+		err := decoder.Decode(&extra)
+		if errors.Is(err, io.EOF) {
+			return nil
+		}
+		if err != nil {
+			return err
+		}
+
+		isEmpty := extra.Kind == 0 ||
+			(extra.Kind == yaml.DocumentNode && len(extra.Content) == 1 && extra.Content[0].Tag == "!!null")
+		if !isEmpty {
+			return fmt.Errorf("line %d: unexpected additional YAML document", extra.Line)
+		}
+	}
 }
